@@ -1415,6 +1415,28 @@ pub fn walk_roots(wd: &World, at: &str) {
             wk.weak(x, m.wr[i], &format!("{} wr{}", at, i));
         }
     }
+    // one handle per object of the program's pool (all handles of an object are the same pointer)
+    {
+        let b = wd.bulk.borrow();
+        let mut done: Vec<u32> = Vec::new();
+        for (id, c) in b.iter().rev() {
+            if !done.contains(id) {
+                done.push(*id);
+                wk.handle(c, Some(*id), &format!("{} pool", at));
+            }
+        }
+    }
+    #[cfg(feature = "weak-ptrs")]
+    {
+        let b = wd.wbulk.borrow();
+        let mut done: Vec<u32> = Vec::new();
+        for (id, x) in b.iter().rev() {
+            if !done.contains(id) {
+                done.push(*id);
+                wk.weak(x, WT::To(*id), &format!("{} weak pool", at));
+            }
+        }
+    }
 }
 
 pub fn check_buffer(wd: &World, at: &str) {
